@@ -460,14 +460,14 @@ theorem isHex_plain {c : Nat} (h : ESG.isHex c = true) : Plain c := by
   simp only [ESG.isHex, ESG.isDigit, Bool.or_eq_true, Bool.and_eq_true, decide_eq_true_eq] at h
   refine ⟨?_, ?_, ?_, ?_, ?_⟩ <;> omega
 
-theorem hex4_neutral (e k m : Bool) {s r : List Nat} {v : Nat} (h : hex4 s = some (v, r)) :
-    ∃ t, s = t ++ r ∧ NeutralM e k m t := by
+theorem hex4_neutral (F : Feat) (m : Bool) {s r : List Nat} {v : Nat} (h : hex4 s = some (v, r)) :
+    ∃ t, s = t ++ r ∧ NeutralM F m t := by
   rcases s with _ | ⟨a, _ | ⟨b, _ | ⟨c, _ | ⟨d, r0⟩⟩⟩⟩ <;> simp only [hex4] at h <;> try cases h
   split at h
   · rename_i hh
     simp only [Bool.and_eq_true] at hh
     cases h
-    refine ⟨[a, b, c, d], rfl, neutralM_plains e k m ?_⟩
+    refine ⟨[a, b, c, d], rfl, neutralM_plains F m ?_⟩
     intro x hx
     simp only [List.mem_cons, List.not_mem_nil, or_false] at hx
     rcases hx with rfl | rfl | rfl | rfl
@@ -477,8 +477,8 @@ theorem hex4_neutral (e k m : Bool) {s r : List Nat} {v : Nat} (h : hex4 s = som
     · exact isHex_plain hh.2
   · cases h
 
-theorem uEscapeU_neutral (e k m : Bool) {s r : List Nat} {v : Nat} (h : uEscapeU s = some (v, r)) :
-    ∃ t, s = t ++ r ∧ NeutralM e k m t := by
+theorem uEscapeU_neutral (F : Feat) (m : Bool) {s r : List Nat} {v : Nat} (h : uEscapeU s = some (v, r)) :
+    ∃ t, s = t ++ r ∧ NeutralM F m t := by
   unfold uEscapeU at h
   split at h
   · rename_i r0
@@ -507,19 +507,19 @@ theorem uEscapeU_neutral (e k m : Bool) {s r : List Nat} {v : Nat} (h : uEscapeU
   · split at h
     · cases h
     · rename_i a r1 h4
-      obtain ⟨t1, e1, n1⟩ := hex4_neutral e k m h4
+      obtain ⟨t1, e1, n1⟩ := hex4_neutral F m h4
       split at h
       · split at h
         · rename_i r2
           split at h
           · rename_i b r3 h4'
-            obtain ⟨t2, e2, n2⟩ := hex4_neutral e k m h4'
+            obtain ⟨t2, e2, n2⟩ := hex4_neutral F m h4'
             split at h
             · simp only [Option.some.injEq, Prod.mk.injEq] at h
               obtain ⟨-, rfl⟩ := h
               refine ⟨t1 ++ ([0x5C, 0x75] ++ t2), ?_, ?_⟩
               · rw [e1, e2]; simp only [List.append_assoc, List.cons_append, List.nil_append]
-              exact neutralM_append n1 (neutralM_append (neutralM_esc e k m 0x75) n2)
+              exact neutralM_append n1 (neutralM_append (neutralM_esc F m 0x75) n2)
             · cases h; exact ⟨t1, e1, n1⟩
           · cases h; exact ⟨t1, e1, n1⟩
         · cases h; exact ⟨t1, e1, n1⟩
@@ -530,26 +530,26 @@ theorem isAsciiLetter_plain {c : Nat} (h : ESG.isAsciiLetter c = true) : Plain c
   simp only [ESG.isAsciiLetter, Bool.or_eq_true, Bool.and_eq_true, decide_eq_true_eq] at h
   refine ⟨?_, ?_, ?_, ?_, ?_⟩ <;> omega
 
-theorem charEscapeU_neutral (e k m : Bool) {x : Nat} {r r' : List Nat} {v : Nat}
-    (h : charEscapeU x r = some (v, r')) : ∃ t, r = t ++ r' ∧ NeutralM e k m t := by
+theorem charEscapeU_neutral (F : Feat) (m : Bool) {x : Nat} {r r' : List Nat} {v : Nat}
+    (h : charEscapeU x r = some (v, r')) : ∃ t, r = t ++ r' ∧ NeutralM F m t := by
   unfold charEscapeU at h
   split at h
-  · cases h; exact ⟨[], rfl, neutralM_nil e k m⟩
+  · cases h; exact ⟨[], rfl, neutralM_nil F m⟩
   · split at h
     · split at h
       · rename_i l r1
         split at h
         · rename_i hl
           cases h
-          exact ⟨[l], rfl, neutralM_plain e k m (isAsciiLetter_plain hl)⟩
+          exact ⟨[l], rfl, neutralM_plain F m (isAsciiLetter_plain hl)⟩
         · cases h
       · cases h
     · split at h
       · split at h
         · split at h
           · cases h
-          · cases h; exact ⟨[], rfl, neutralM_nil e k m⟩
-        · cases h; exact ⟨[], rfl, neutralM_nil e k m⟩
+          · cases h; exact ⟨[], rfl, neutralM_nil F m⟩
+        · cases h; exact ⟨[], rfl, neutralM_nil F m⟩
       · split at h
         · split at h
           · rename_i a b r1
@@ -557,7 +557,7 @@ theorem charEscapeU_neutral (e k m : Bool) {x : Nat} {r r' : List Nat} {v : Nat}
             · rename_i hh
               simp only [Bool.and_eq_true] at hh
               cases h
-              refine ⟨[a, b], rfl, neutralM_plains e k m ?_⟩
+              refine ⟨[a, b], rfl, neutralM_plains F m ?_⟩
               intro y hy
               simp only [List.mem_cons, List.not_mem_nil, or_false] at hy
               rcases hy with rfl | rfl
@@ -566,28 +566,32 @@ theorem charEscapeU_neutral (e k m : Bool) {x : Nat} {r r' : List Nat} {v : Nat}
             · cases h
           · cases h
         · split at h
-          · exact uEscapeU_neutral e k m h
+          · exact uEscapeU_neutral F m h
           · split at h
-            · cases h; exact ⟨[], rfl, neutralM_nil e k m⟩
+            · cases h; exact ⟨[], rfl, neutralM_nil F m⟩
             · cases h
 
 /-- What an `AtomEscape` of the fragment consumes. -/
-theorem atomEscape_neutral (e k m : Bool) (c : Cfg) (hcu : c.u = true) {x : Nat} {r r' : List Nat}
-    {est est' : ESG.St} (hx : escOk x = true) (hd : ¬ (0x31 ≤ x ∧ x ≤ 0x39))
+theorem atomEscape_neutral (F : Feat) (m : Bool) (c : Cfg) (hcu : c.u = true) {x : Nat} {r r' : List Nat}
+    {est est' : ESG.St} (hx : escOk false x = true) (hd : ¬ (0x31 ≤ x ∧ x ≤ 0x39))
     (h : atomEscape c (x :: r) est = .ok (r', est')) :
-    est' = est ∧ ∃ t, r = t ++ r' ∧ NeutralM e k m t := by
+    est' = est ∧ ∃ t, r = t ++ r' ∧ NeutralM F m t := by
   simp only [escOk, Bool.not_eq_true', Bool.or_eq_false_iff, beq_eq_false_iff_ne,
     Bool.and_eq_false_iff, decide_eq_false_iff_not] at hx
-  obtain ⟨⟨hp, hP⟩, hk⟩ := hx
+  obtain ⟨⟨hp, hP⟩, hk'⟩ := hx
+  have hk : x ≠ 0x6B := by
+    rcases hk' with h | h
+    · exact h
+    · exact absurd h (by decide)
   unfold atomEscape at h
   simp only [hcu, if_true] at h
   split at h
-  · cases h; exact ⟨rfl, [], rfl, neutralM_nil e k m⟩
+  · cases h; exact ⟨rfl, [], rfl, neutralM_nil F m⟩
   · split at h
     · split at h
       · rename_i v r1 hce
         cases h
-        exact ⟨rfl, charEscapeU_neutral e k m hce⟩
+        exact ⟨rfl, charEscapeU_neutral F m hce⟩
       · cases h
     · split at h
       · rename_i h0 hdg
@@ -601,7 +605,7 @@ theorem atomEscape_neutral (e k m : Bool) (c : Cfg) (hcu : c.u = true) {x : Nat}
         split at h
         · rename_i v r1 hce
           cases h
-          exact ⟨rfl, charEscapeU_neutral e k m hce⟩
+          exact ⟨rfl, charEscapeU_neutral F m hce⟩
         · cases h
 
 /-! ## `AtomEscape` -/
@@ -618,14 +622,18 @@ theorem charNode_ok (fl : Flags) (c : Nat) : ∃ n, charNode fl c = .ok n := by
     rcases cls with _ | ⟨a, _ | ⟨b, _ | ⟨c', _ | ⟨d, _ | ⟨e, t⟩⟩⟩⟩⟩ <;> simp_all [Ens, panicAt]
 
 theorem atomEscape_eq_char (c : Cfg) (hcu : c.u = true) {x : Nat} (r : List Nat) (est : ESG.St)
-    (hx : escOk x = true) (hd : ¬ (0x31 ≤ x ∧ x ≤ 0x39)) (hcl : ESG.isClassEscLetter x = false) :
+    (hx : escOk false x = true) (hd : ¬ (0x31 ≤ x ∧ x ≤ 0x39)) (hcl : ESG.isClassEscLetter x = false) :
     atomEscape c (x :: r) est =
       match charEscapeU x r with
       | some (_, r') => .ok (r', est)
       | none => .bad := by
   simp only [escOk, Bool.not_eq_true', Bool.or_eq_false_iff, beq_eq_false_iff_ne,
     Bool.and_eq_false_iff, decide_eq_false_iff_not] at hx
-  obtain ⟨⟨hp, hP⟩, hk⟩ := hx
+  obtain ⟨⟨hp, hP⟩, hk'⟩ := hx
+  have hk : x ≠ 0x6B := by
+    rcases hk' with h | h
+    · exact h
+    · exact absurd h (by decide)
   unfold atomEscape
   simp only [hcl, hcu, Bool.false_eq_true, if_false, if_true]
   by_cases h0 : x = 0x30
@@ -640,7 +648,7 @@ theorem atomEscape_eq_char (c : Cfg) (hcu : c.u = true) {x : Nat} (r : List Nat)
 
 /-- `AtomEscape` (UnicodeMode, outside the excluded `\p \P \k \1…\9`): crate against grammar. -/
 theorem atomEscape_sim (c : Cfg) (hcu : c.u = true) (st1 : PState) (hu : st1.flags.unicode = true)
-    {x : Nat} {r : List Nat} (hin : st1.input = x :: r) (hx : escOk x = true)
+    {x : Nat} {r : List Nat} (hin : st1.input = x :: r) (hx : escOk false x = true)
     (hd : ¬ (0x31 ≤ x ∧ x ≤ 0x39)) (hch : AllChar r) (est : ESG.St) :
     match atomEscape c (x :: r) est with
     | .ok (r', _) => ∃ nd, consumeAtomEscape st1 = .ok (nd, { st1 with input := r' })
@@ -660,7 +668,11 @@ theorem atomEscape_sim (c : Cfg) (hcu : c.u = true) (st1 : PState) (hu : st1.fla
     have hx' := hx
     simp only [escOk, Bool.not_eq_true', Bool.or_eq_false_iff, beq_eq_false_iff_ne,
       Bool.and_eq_false_iff, decide_eq_false_iff_not] at hx'
-    obtain ⟨⟨hp, hP⟩, hk⟩ := hx'
+    obtain ⟨⟨hp, hP⟩, hk'⟩ := hx'
+    have hk : x ≠ 0x6B := by
+      rcases hk' with h | h
+      · exact h
+      · exact absurd h (by decide)
     simp only [ESG.isClassEscLetter, Bool.or_eq_true, beq_iff_eq, not_or] at hcl
     obtain ⟨⟨⟨⟨⟨c1, c2⟩, c3⟩, c4⟩, c5⟩, c6⟩ := hcl
     have hce : consumeAtomEscape st1 =
@@ -738,8 +750,8 @@ theorem consumeAtomEscape_dec (st1 : PState) (hu : st1.flags.unicode = true) {x 
   simp only [d1, d2, d3, d4, d5, hu, Bool.false_and, Bool.false_eq_true, if_false, Bool.and_self,
     if_true, decimalLiteral_eq, hk]
 
-theorem dec_neutral (e k m : Bool) {x : Nat} (r : List Nat) (hd : 0x31 ≤ x ∧ x ≤ 0x39) :
-    ∃ p, 0x5C :: x :: r = p ++ (takeDigits (x :: r) 0 0).2.2 ∧ NeutralM e k m p := by
+theorem dec_neutral (F : Feat) (m : Bool) {x : Nat} (r : List Nat) (hd : 0x31 ≤ x ∧ x ≤ 0x39) :
+    ∃ p, 0x5C :: x :: r = p ++ (takeDigits (x :: r) 0 0).2.2 ∧ NeutralM F m p := by
   have hdg : ESG.isDigit x = true := by simp [ESG.isDigit]; omega
   obtain ⟨p, hp, hall⟩ := takeDigits_split r
   have e1 : (takeDigits (x :: r) 0 0).2.2 = (takeDigits r 0 0).2.2 := by
@@ -747,26 +759,43 @@ theorem dec_neutral (e k m : Bool) {x : Nat} (r : List Nat) (hd : 0x31 ≤ x ∧
     simp [List.dropWhile_cons_of_pos hdg]
   rw [e1]
   refine ⟨0x5C :: x :: p, by rw [List.cons_append, List.cons_append, ← hp], ?_⟩
-  exact neutralM_append (p := [0x5C, x]) (neutralM_esc e k m x)
-    (neutralM_plains e k m (fun c hc => isDigit_plain (hall c hc)))
+  exact neutralM_append (p := [0x5C, x]) (neutralM_esc F m x)
+    (neutralM_plains F m (fun c hc => isDigit_plain (hall c hc)))
 
 
 /-! ## The largest decimal escape only grows (grammar side only) -/
 
-theorem atomEscape_mono (c : Cfg) (s : List Nat) (st : ESG.St) (r : List Nat) (st' : ESG.St)
-    (h : atomEscape c s st = .ok (r, st')) : st.maxDec ≤ st'.maxDec := by
+/-- The recognizer's state only grows. -/
+def Mono (c : Cfg) (n : Nat) : Prop :=
+  (∀ s st r st', disj c n s st = .ok (r, st') → Grows st st') ∧
+  (∀ s st r st', alt c n s st = .ok (r, st') → Grows st st') ∧
+  (∀ s st r st', body c n s st = .ok (r, st') → Grows st st') ∧
+  (∀ s st r st', term c n s st = .ok (r, st') → Grows st st') ∧
+  (∀ s st r st', quantified c n s st = .ok (r, st') → Grows st st') ∧
+  (∀ s st r st', atom c n s st = .ok (r, st') → Grows st st')
+
+theorem grows_iff (a b : ESG.St) :
+    Grows a b ↔ a.maxDec ≤ b.maxDec ∧ a.refs <:+ b.refs ∧ a.names <:+ b.names :=
+  ⟨fun h => ⟨h.maxDec, h.refs, h.names⟩, fun h => ⟨h.1, h.2.1, h.2.2⟩⟩
+
+theorem atomEscape_grows (c : Cfg) (s : List Nat) (st : ESG.St) (r : List Nat) (st' : ESG.St)
+    (h : atomEscape c s st = .ok (r, st')) : Grows st st' := by
+  rw [grows_iff]
   unfold atomEscape namedRef at h
   repeat' split at h
-  all_goals grind
+  all_goals grind [List.suffix_refl, List.suffix_cons]
 
-/-- The largest back-reference number seen only grows. -/
-def Mono (c : Cfg) (n : Nat) : Prop :=
-  (∀ s st r st', disj c n s st = .ok (r, st') → st.maxDec ≤ st'.maxDec) ∧
-  (∀ s st r st', alt c n s st = .ok (r, st') → st.maxDec ≤ st'.maxDec) ∧
-  (∀ s st r st', body c n s st = .ok (r, st') → st.maxDec ≤ st'.maxDec) ∧
-  (∀ s st r st', term c n s st = .ok (r, st') → st.maxDec ≤ st'.maxDec) ∧
-  (∀ s st r st', quantified c n s st = .ok (r, st') → st.maxDec ≤ st'.maxDec) ∧
-  (∀ s st r st', atom c n s st = .ok (r, st') → st.maxDec ≤ st'.maxDec)
+theorem addName_grows (c : Cfg) (nm : List Nat) (st st' : ESG.St) (h : addName c nm st = some st') :
+    st'.maxDec = st.maxDec ∧ st'.refs = st.refs ∧ st'.names = nm :: st.names ∧ st'.groups = st.groups ∧
+      st'.scope = nm :: st.scope := by
+  unfold addName at h
+  cases hc : (if c.feat25 then st.scope.contains nm else st.names.contains nm) with
+  | true => rw [hc] at h; simp at h
+  | false =>
+    rw [hc] at h
+    simp only [Bool.false_eq_true, if_false, Option.some.injEq] at h
+    subst h
+    exact ⟨rfl, rfl, rfl, rfl, rfl⟩
 
 theorem mono (c : Cfg) (n : Nat) : Mono c n := by
   induction n with
@@ -783,28 +812,67 @@ theorem mono (c : Cfg) (n : Nat) : Mono c n := by
     refine ⟨?_, ?_, ?_, ?_, ?_, ?_⟩
     · intro s st r st' h
       unfold disj at h
-      repeat' split at h
-      all_goals grind
+      split at h
+      · rename_i r1 st1 ha
+        have g1 := ihA _ _ _ _ ha
+        split at h
+        · rename_i r2 st2 hd
+          cases h
+          have g2 := ihD _ _ _ _ hd
+          exact ⟨Nat.le_trans g1.maxDec g2.maxDec, g1.refs.trans g2.refs, g1.names.trans g2.names⟩
+        · have g2 := ihD _ _ _ _ h
+          exact ⟨Nat.le_trans g1.maxDec g2.maxDec, g1.refs.trans g2.refs, g1.names.trans g2.names⟩
+      · exact ihA _ _ _ _ h
     · intro s st r st' h
       unfold alt at h
-      repeat' split at h
-      all_goals grind
+      split at h
+      · cases h; exact Grows.refl _
+      · cases h; exact Grows.refl _
+      · cases h; exact Grows.refl _
+      · split at h
+        · rename_i r1 st1 ht
+          exact (ihT _ _ _ _ ht).trans (ihA _ _ _ _ h)
+        · exact ihT _ _ _ _ h
     · intro s st r st' h
       unfold body at h
-      repeat' split at h
-      all_goals grind
+      split at h
+      · rename_i r1 st1 hd; cases h; exact ihD _ _ _ _ hd
+      · cases h
+      · exact ihD _ _ _ _ h
     · intro s st r st' h
+      rw [grows_iff]
       unfold term at h
       repeat' split at h
-      all_goals grind
+      all_goals first
+        | (cases h; exact ⟨Nat.le_refl _, List.suffix_refl _, List.suffix_refl _⟩)
+        | (rw [← grows_iff]; exact ihB _ _ _ _ h)
+        | (rw [← grows_iff]; exact ihQ _ _ _ _ h)
+        | (cases h; rw [← grows_iff]; exact ihB _ _ _ _ ‹_›)
+        | grind
     · intro s st r st' h
       unfold quantified at h
-      repeat' split at h
-      all_goals grind
+      split at h
+      · rename_i r1 st1 ha
+        split at h
+        · cases h; exact ihM _ _ _ _ ha
+        · cases h
+        · cases h
+      · exact ihM _ _ _ _ h
     · intro s st r st' h
+      rw [grows_iff]
       unfold atom at h
       repeat' split at h
-      all_goals grind [→ atomEscape_mono, addName]
-
+      all_goals first
+        | (cases h; exact ⟨Nat.le_refl _, List.suffix_refl _, List.suffix_refl _⟩)
+        | (rw [← grows_iff]; exact ihB _ _ _ _ h)
+        | (rw [← grows_iff]; exact atomEscape_grows _ _ _ _ _ h)
+        | (have hb := ihB _ _ _ _ h; exact ⟨hb.maxDec, hb.refs, hb.names⟩)
+        | (have hb := ihB _ _ _ _ h
+           have ha := addName_grows _ _ _ _ ‹_›
+           refine ⟨?_, ?_, ?_⟩
+           · have := hb.maxDec; rw [ha.1] at this; exact this
+           · have := hb.refs; rw [ha.2.1] at this; exact this
+           · have := hb.names; rw [ha.2.2.1] at this; exact (List.suffix_cons _ _).trans this)
+        | grind
 
 end Regress.C08Frag
